@@ -85,6 +85,28 @@ def as_container(kind, ids, pids):
     return mk[kind](ids), mk[kind](pids)
 
 
+def long_script(rng, kind, n):
+    """union/find history over elements 0..n (element n is never united): n-1 unions that join 0..n-1 into one set, then queries"""
+    if kind == "doubling":
+        pairs, w = [], 1
+        while w < n:
+            for lo in range(0, n - w, 2 * w):
+                a, b = lo + rng.randrange(w), lo + w + rng.randrange(min(w, n - lo - w))
+                pairs.append((a, b) if rng.random() < 0.5 else (b, a))
+            w *= 2
+    else:
+        sweep, order = kind.split("/")
+        steps = range(n - 1) if sweep == "line-up" else range(n - 2, -1, -1)
+        pairs = []
+        for i in steps:
+            ab = order == "ab" if order != "coin" else rng.random() < 0.5
+            pairs.append((i, i + 1) if ab else (i + 1, i))
+    ops = [("u", a, b) for a, b in pairs]
+    qs = [(0, n - 1), (n - 1, 0), (0, n), (n, n - 1)] + [(rng.randrange(n + 1), rng.randrange(n + 1)) for _ in range(6)]
+    rng.shuffle(qs)
+    return ops + [("s", a, b) for a, b in qs]
+
+
 class DsuScripts(Suite):
     name = "c18.dsu"
 
@@ -102,6 +124,20 @@ class DsuScripts(Suite):
         for n in ([64, 300] if big else [64]):
             ops = [("u", i, i + 1) for i in range(n - 1)] + [("s", 0, n - 1), ("s", n // 2, 1)]
             out.append({"class": "chain", "n": n, "ops": ops})
+        # long histories (more unions than the interpreter's recursion limit): neighbours united along a line in either sweep direction and
+        # either argument order, coin-tossed argument order, blocks of doubling size; then the first look-ups of the far ends, of random
+        # elements and of an element that was never united.  Whatever linking rule a union-find uses, one of these builds its deepest forest.
+        import sys as _sys
+        lim = _sys.getrecursionlimit()
+        kinds = ["line-up/ab", "line-up/ba", "line-down/ab", "line-down/ba", "line-up/coin", "line-down/coin", "doubling"]
+        for rep in range(2 if big else 1):
+            skip = None if big else rng.choice(["line-up/coin", "line-down/coin"])     # quick tier: one of the two coin-tossed sweeps per run
+            for kind in kinds:
+                if kind == skip:
+                    continue
+                n = (3 if "coin" in kind else 1) * lim * (rep + 1) + rng.randint(200, 900)
+                ops = long_script(rng, kind, n)
+                out.append({"class": "long/" + kind, "n": n + 1, "ops": ops, "big": True})
         return out
 
     def run(self, case):
@@ -126,16 +162,27 @@ class DsuScripts(Suite):
 
     def oracle(self, case, res):
         if "exc" in res:
-            return [("dsu-raises", f"{res['exc']}: {res.get('msg')}")]
+            ops = case["ops"]
+            return [("dsu-raises", f"{res['exc']}: {res.get('msg')} — n={case['n']}, {sum(1 for o in ops if o[0] == 'u')} unions {ops[:4]}…, "
+                                   f"queries {[o for o in ops if o[0] == 's'][:4]}…")]
         n = case["n"]
         lab = list(range(n))
+        members = {i: [i] for i in range(n)}       # label -> its elements; the smaller class is relabelled (no trees, nothing to compress)
         want = []
         for k, a, b in case["ops"]:
             if k == "u":
                 la, lb = lab[a], lab[b]
-                lab = [lb if x == la else x for x in lab]
+                if la != lb:
+                    if len(members[la]) > len(members[lb]):
+                        la, lb = lb, la
+                    for x in members[la]:
+                        lab[x] = lb
+                    members[lb].extend(members.pop(la))
             else:
                 want.append(lab[a] == lab[b])
+        ans = res.get("ans")
+        if not isinstance(ans, list) or len(ans) != len(want):
+            return [("dsu-malformed", f"{len(want)} queries, answers {str(ans)[:80]}")]
         if want != res["ans"]:
             i = next(i for i, (x, y) in enumerate(zip(want, res["ans"])) if x != y)
             return [("dsu-wrong-answer", f"query #{i} answered {res['ans'][i]}, the unions so far make it {want[i]} (n={n}, ops={case['ops'][:30]})")]
@@ -191,8 +238,19 @@ class Checkers(Suite):
         import sys as _sys
         lim = _sys.getrecursionlimit()
         longs = []
-        for kind in (["run-open", "run-ring", "trunk-twigs", "run-back", "run-shuffled"] if big else ["run-open", "run-ring", "trunk-twigs"]):
+        for kind in (["run-open", "run-ring", "trunk-twigs", "run-back", "run-shuffled", "run-back-twigs", "run-back-ring", "run-back-twigs", "run-back-ring"]
+                     if big else ["run-open", "run-ring", "trunk-twigs", "run-back-twigs", "run-back-ring"]):
             n = lim + rng.randint(200, 900) if kind != "trunk-twigs" else 2 * lim + rng.randint(0, 500)
+            if kind in ("run-back-twigs", "run-back-ring"):
+                # rows list children BEFORE their parents (row i has parent i+1); a few more rows at the end hang off nodes of the run,
+                # the first of them off its leaf end; "ring": the run's last node has that row as its parent, which closes one big cycle
+                t = rng.randint(1, 12)
+                m = n - t
+                pids = list(range(1, m)) + [-1] + [rng.randrange(60)] + [rng.randrange(m) for _ in range(t - 1)]
+                if kind == "run-back-ring":
+                    pids[m - 1] = m
+                longs.append({"class": "long/" + kind, "ids": list(range(n)), "pids": pids, "big": True, "light": not big})
+                continue
             if kind == "run-open":
                 pids = [-1] + list(range(n - 1))                     # 0 <- 1 <- 2 ...
                 pids[-1] = 0                                          # the last node hangs off the root
@@ -262,6 +320,8 @@ class Checkers(Suite):
                ("ggetdsu " + a, gen.ints(res["get_dsu"])),     # the definition generated from get_dsu on this run (translator cross-check)
                ("issorted " + a, str(res["sorted"])), ("bifurcate excl=1 " + a, tf(res["bif1"])), ("bifurcate excl=0 " + a, tf(res["bif0"])),
                ("gbifurcate excl=1 " + a, tf(res["bif1"])), ("gbifurcate excl=0 " + a, tf(res["bif0"]))]     # generated from is_bifurcate on this run
+        if case.get("light"):      # quick tier: the pointer-jumping labelling of these long tables is compared in the thorough tier only
+            out = [x for x in out if not x[0].startswith(("getdsu", "ggetdsu"))]
         if not case.get("big"):
             out.append(("gsingleroot " + a, tf(res["single_root"])))     # the definition generated from is_single_root on this run
         if "cyclic" in res:
@@ -274,7 +334,8 @@ class Checkers(Suite):
         n = len(ids)
         if "exc" in res:
             key = "checker-timeout" if res["exc"] == "Timeout" else "checker-raises"
-            return [(key, f"ids={ids} pids={pids}: {res['exc']}: {res.get('msg')}")]
+            show = (lambda a: a) if n <= 60 else (lambda a: f"[{', '.join(map(str, a[:6]))}, … {', '.join(map(str, a[-14:]))}] ({n} rows)")
+            return [(key, f"{case.get('class')}: ids={show(ids)} pids={show(pids)}: {res['exc']}: {res.get('msg')}")]
         pos = {v: k for k, v in enumerate(ids)}
         pp = [-1 if p == -1 else pos[p] for p in pids]      # positions
         out = []
